@@ -216,10 +216,12 @@ def lattice_case(draw):
             "k": draw(st.sampled_from([1.0, 1.0, 0.5, 138.935])),
             "speed": draw(st.one_of(st.just(1.0), gen.log_uniform(1e-3, 1e3))),
             "shift": draw(st.tuples(st.integers(-2, 2), st.integers(-2, 2), st.integers(-2, 2))),
-            "alt": draw(st.sampled_from([0, 1]))}
+            "alt": draw(st.integers(0, 4))}
 
 
-ALT_PARAMETERS = [(3.0, 6, 3), (4.0, 8, 2)]
+# other converged Ewald splittings, including ones whose position-space cut-off exceeds the Fourier cut-off (the natural
+# choice for a small alpha)
+ALT_PARAMETERS = [(3.0, 6, 3), (4.0, 8, 2), (1.5, 3, 5), (1.0, 2, 7), (2.0, 4, 4)]
 
 
 def body_lattice(rec, **c):
